@@ -45,7 +45,8 @@ def parseObs (j : Json) : Except String Obs := do
            err := (getOpt j "err").bind (fun r => r.getStr?.toOption),
            notifs := notifs,
            accepts := ← (← getArr j "accepts").toList.mapM (·.getBool?),
-           chg := match j.getObjVal? "chg" with | .ok (.bool b) => b | _ => true }
+           chg := match j.getObjVal? "chg" with | .ok (.bool b) => b | _ => true,
+           held := match j.getObjVal? "held" with | .ok (.bool b) => b | _ => true }
 
 def jPairs (d : Dict) : Json := Json.arr (d.map fun (k, v) => Json.arr #[Json.str k, toJson v]).toArray
 def jInts (l : List Int) : Json := Json.arr (l.map toJson).toArray
@@ -65,7 +66,7 @@ def jObs (o : Obs) : Json := Json.mkObj [
   ("ret", match o.ret with | some r => toJson r | none => Json.null),
   ("err", match o.err with | some e => Json.str e | none => Json.null),
   ("notifs", Json.arr (o.notifs.map fun (a, b) => Json.arr #[jPayload a, jPayload b]).toArray),
-  ("accepts", Json.arr (o.accepts.map Json.bool).toArray), ("chg", Json.bool o.chg)]
+  ("accepts", Json.arr (o.accepts.map Json.bool).toArray), ("chg", Json.bool o.chg), ("held", Json.bool o.held)]
 
 def opName : Op → String
   | .setIdx .. => "setIdx" | .setKey .. => "setKey" | .append .. => "append" | .insert .. => "insert"
